@@ -424,11 +424,22 @@ def rule_R3_R4(P, rep):
     # R4: wake mechanisms
     wake = {"ABTD_futex_resume", "ABTI_ythread_resume_and_push", "ABTI_ythread_jump_to_sibling_internal"}
     ext_tests = {}
-    for fn in ("ABTI_ythread_exit", "ABTI_ythread_resume_joiner"):
-        F = P.fn(fn, YH)
+    # every function that obtains the joiner itself is a waker and is held to the same discipline (the two known
+    # today plus whichever function a later change makes call ABTI_ythread_atomic_get_joiner directly)
+    wakers = [("ABTI_ythread_exit", YH), ("ABTI_ythread_resume_joiner", YH)]
+    for G_ in P.functions.values():
+        if (G_.name, G_.file) not in wakers and G_.calls("ABTI_ythread_atomic_get_joiner"):
+            wakers.append((G_.name, G_.file))
+    for fn, wfile in wakers:
+        F = P.fn(fn, wfile)
         sel = _Sel(calls=lambda c: c in wake or c in ("ABTI_pool_dec_num_blocked", "ABTI_ythread_jump_to_parent_internal"),
                       fields={"state"}, conds=conds, canon=True)
         for toks, kind, rv, rtxt in seq.sequences(F, sel):
+            if (fn, wfile) in wakers[2:]:
+                # a further waker may go on to jump elsewhere (exit_to jumps to its target): only a jump to the
+                # joiner itself is a wake-up there
+                toks = [t for t in toks if not (t[0] == "call" and t[1] == "ABTI_ythread_jump_to_sibling_internal" and
+                                                not _rargs(F, t)[2].startswith(_GET_JOINER))]
             if not has_if(toks, "joiner", True):
                 w = idx(toks, lambda t: t[0] == "call" and t[1] in wake)
                 rep.ob("R4", "%s without joiner wakes nobody" % fn, not w, _cshow(F, toks), loc=F.file, site="%s/no-joiner" % fn)
@@ -466,6 +477,11 @@ def rule_R3_R4(P, rep):
         rep.ob("R4", "exit and resume_joiner recognise an external joiner with the same test", a == b == {"joiner-ext"},
                "exit: %s ; resume_joiner: %s (expected: joiner's type == ABTI_THREAD_TYPE_EXT)" % (sorted(a), sorted(b)), loc=YH,
                site="joiner/ext-test-agreement")
+        for fn, wfile in wakers[2:]:
+            c = ext_tests.get(fn, set())
+            rep.ob("R4", "%s obtains the joiner itself and recognises an external joiner like resume_joiner" % fn,
+                   c == {"joiner-ext"}, "%s tests: %s (expected: joiner's type == ABTI_THREAD_TYPE_EXT)" % (fn, sorted(c)),
+                   loc=wfile, site="joiner/ext-test-agreement/%s" % fn)
     rep.min_instances("R3", 8)
     rep.min_instances("R4", 6)
 
